@@ -251,7 +251,10 @@ impl BuildSystem {
         )?;
 
         // Generate dependency visualization if requested
+        let mut vouched_files = generated_files.clone();
         if config.should_visualize_deps() {
+            vouched_files.push("dependency-graph.txt".to_string());
+            vouched_files.push("dependency-graph.dot".to_string());
             self.generate_dependency_visualization(&analyzer, &commands, &config.output_path)?;
         }
 
@@ -261,7 +264,8 @@ impl BuildSystem {
             discovered_structs,
             analyzer.get_discovered_events(),
             config,
-        )?;
+        )?
+        .with_generated_files(&vouched_files);
         if let Err(e) = cache.save(&config.output_path) {
             self.logger
                 .warning(&format!("Failed to save generation cache: {}", e));
